@@ -126,6 +126,12 @@ func classify(c Case, tags map[string]bool) {
 	if c.Dir.MainMissing {
 		tags["main-missing"] = true
 	}
+	if c.Dir.TmpIsDir {
+		tags["tmp-is-directory"] = true
+	}
+	if c.Dir.BakIsDir {
+		tags["bak-is-directory"] = true
+	}
 }
 
 func main() {
